@@ -5,7 +5,7 @@
 From Coq Require Import Reals ZArith List Bool Arith Lia Lra Sorted.
 From Coquelicot Require Import Coquelicot.
 From NF Require Import Base.Ops Base.Rops Base.Result Gen.Utils Gen.SplineRQ Model.Utils Model.Vec Model.SplineRQ
-  Proofs.VecR Proofs.UtilsR Proofs.SplineRQP Proofs.Glue.
+  Proofs.VecR Proofs.UtilsR Proofs.SplineRQP Proofs.RQBinIntegral Proofs.Glue.
 Import ListNotations.
 Open Scope R_scope.
 
@@ -432,6 +432,60 @@ Section Whole.
       + exists (wk j). split; [exact Pwj|]. intros y [Y1 Y2]. apply F_on_bin; [exact Hj | rewrite <- Eq in Y1; lra | rewrite <- Eq in Y2; exact Y2].
       + exists (wk (S j)). split; [exact Pw|]. intros y [Y1 Y2]. apply F_on_bin; [exact Hk | rewrite <- Eq in Y1; lra | rewrite <- Ex; rewrite <- Eq in Y2; lra].
   Qed.
+
+  (* ---- change of variables through the whole spline (C03): bin by bin, glued with Chasles ---- *)
+  Section Integral.
+    Variable phi : R -> R.
+    Hypothesis Hphi : forall y, b_bottom bx <= y <= b_top bx -> continuous phi y.
+
+    Lemma piece_integral k : (k < K)%nat ->
+      is_RInt (fun x => phi (F x) * exp (Flad x)) (xk k) (xk (S k)) (RInt phi (yk k) (yk (S k))).
+    Proof.
+      intros Hk. destruct (bin_facts k Hk) as [Pw [Ph [Pd0 [Pd1 [Ex Ey]]]]].
+      pose proof (yk_within k ltac:(lia)) as Y0. pose proof (yk_within (S k) ltac:(lia)) as Y1.
+      rewrite <- Ex, <- Ey.
+      apply (is_RInt_ext (fun x => phi (fwd (xk k) (wk k) (yk k) (hk k) (dk k) (dk (S k)) x)
+                                   * deriv (xk k) (wk k) (hk k) (dk k) (dk (S k)) x)).
+      - intros x Hx. rewrite Rmin_left, Rmax_right in Hx by lra.
+        destruct (F_on_bin k x Hk ltac:(lra) ltac:(rewrite <- Ex; lra)) as [EF EL].
+        assert (Hin : xk k <= x <= xk k + wk k) by lra.
+        rewrite EF, EL. rewrite (lad_is_ln_deriv _ _ (yk k) _ _ _ Pw Ph Pd0 Pd1 x Hin).
+        rewrite exp_ln by (apply deriv_pos; assumption). reflexivity.
+      - apply bin_integral; try assumption. intros y Hy. apply Hphi. lra.
+    Qed.
+
+    Lemma phi_integrable a b : b_bottom bx <= a -> a <= b -> b <= b_top bx -> ex_RInt phi a b.
+    Proof.
+      intros A B C. apply (ex_RInt_continuous (V := R_CompleteNormedModule)). intros z Hz. rewrite Rmin_left, Rmax_right in Hz by exact B. apply Hphi. lra.
+    Qed.
+
+    Lemma upto_integral k : (k <= K)%nat ->
+      is_RInt (fun x => phi (F x) * exp (Flad x)) (xk 0) (xk k) (RInt phi (yk 0) (yk k)).
+    Proof.
+      induction k as [|k IH]; intros Hk.
+      - rewrite RInt_point. apply (is_RInt_point (V := R_NormedModule)).
+      - pose proof (yk_within 0 ltac:(lia)) as Y0. pose proof (yk_within k ltac:(lia)) as Yk. pose proof (yk_within (S k) ltac:(lia)) as Ys.
+        assert (Y0k : yk 0 <= yk k).
+        { destruct k as [|k']; [lra | left; apply yk_increasing; lia]. }
+        assert (Yks : yk k <= yk (S k)) by (left; apply yk_increasing; lia).
+        rewrite <- (RInt_Chasles phi (yk 0) (yk k) (yk (S k))).
+        + apply (is_RInt_Chasles (V := R_NormedModule) _ (xk 0) (xk k) (xk (S k))); [apply IH; lia | apply piece_integral; lia].
+        + apply phi_integrable; lra.
+        + apply phi_integrable; lra.
+    Qed.
+
+    (* the density phi(F x) F'(x) of the spline flow carries exactly the base mass of the target interval *)
+    Theorem whole_change_of_variables :
+      is_RInt (fun x => phi (F x) * exp (Flad x)) (b_left bx) (b_right bx) (RInt phi (b_bottom bx) (b_top bx)).
+    Proof.
+      pose proof (upto_integral K (le_n K)) as H.
+      assert (E0 : xk 0 = b_left bx) by (unfold xk, cw; apply knots_first; assumption).
+      assert (EK : xk K = b_right bx) by (unfold xk, cw; apply knots_last; assumption).
+      assert (F0 : yk 0 = b_bottom bx) by (unfold yk, ch; apply knots_first; apply uh_ne).
+      assert (FK : yk K = b_top bx) by (unfold yk, ch; rewrite <- Hlh; apply knots_last; apply uh_ne).
+      rewrite E0, EK, F0, FK in H. exact H.
+    Qed.
+  End Integral.
 End Whole.
 
 (* the side conditions under which the code accepts a configuration, bundled *)
